@@ -290,6 +290,7 @@ func exec(version string, h []event, verifyAll bool) (string, string, *seqx.Fail
 	applied := [2]string{"V0", "R0"}
 	disk := [2]string{"V0", "R0"}
 	outcome := "start"
+	pubsubs := 0
 	for step, e := range h {
 		switch e.Op {
 		case "write":
@@ -312,6 +313,7 @@ func exec(version string, h []event, verifyAll bool) (string, string, *seqx.Fail
 		case "reload": // body of the ConfigWatcher timer case
 			rerr = s.cfg.Reload()
 		case "pubsubReload": // the real pubsub subscription handler
+			pubsubs++
 			nlog := len(s.log.Events)
 			s.pubsubIn(context.Background(), time.Date(2024, 1, 1, 0, 0, 0, 0, time.UTC).Format(time.RFC3339))
 			if len(s.log.Events) > nlog {
@@ -398,7 +400,15 @@ func exec(version string, h []event, verifyAll bool) (string, string, *seqx.Fail
 		}
 	}
 	hc, hr := s.cfg.GetHashes()
-	canon := strings.Join([]string{version, disk[0], disk[1], applied[0], applied[1], hc, hr, digest(snapshot(s.cfg, s.dir))}, "|")
+	// "an announcement was handled before" is part of the state: the watcher remembers the last announcement (for
+	// the real code only as a trace attribute; an implementation that lets it influence the next one would differ
+	// between histories this abstraction would otherwise merge). Every announcement carries the same time stamp:
+	// peers announce with their own wall clocks, so equal and older stamps are ordinary.
+	seenPubsub := "first-announcement-pending"
+	if pubsubs > 0 {
+		seenPubsub = "announcement-handled-before"
+	}
+	canon := strings.Join([]string{version, disk[0], disk[1], applied[0], applied[1], hc, hr, digest(snapshot(s.cfg, s.dir)), seenPubsub}, "|")
 	return canon, outcome, nil
 }
 
